@@ -166,6 +166,7 @@ fn programs(level: u8) -> Vec<Program> {
         stmts.extend(vec![
             G::Neq(T::list(vec![x.clone(), y.clone()]), T::list(vec![y.clone(), T::I(5)])),
             G::Neq(z.clone(), T::list(vec![x.clone()])),
+            G::Neq(z.clone(), T::list(vec![y.clone()])),
             G::Eq(y.clone(), T::list(vec![z.clone()])),
             G::Eq(T::cons(x.clone(), z.clone()), T::list(vec![T::I(5), y.clone()])),
         ]);
@@ -398,7 +399,7 @@ fn check(p: &Program, index: usize, d: usize) -> (Vec<Violation>, u64, bool) {
 pub fn run(ctx: &mut Ctx) {
     let quick = ctx.quick();
     let d = if quick { 1 } else { 2 };
-    ctx.set("rule", json!("E3 x E2: all ordered sequences of 2-3 statements of a 14-statement alphabet and all 4-statement sequences of the first ten (thorough: all 4-statement sequences of the alphabet and all 5-statement sequences of the first eight) from an alphabet of == / != goals (incl. subsuming and multi-binding disequalities), sequences containing a two-arm conde, and FD programs, run with an instrumented User type; an fngoal probe before and after every statement and every answer state check: with_constraint - take_constraint == number of stored constraints; for every successful `==` process_extension was called once with exactly the bindings unify_rec adds from the same state; the statements recorded in an answer's (per-branch) user state form one path of the program. Each program under every schedule of the store iteration sites with <= d deviations. distinct_nontrivial = programs whose answers carry stored constraints."));
+    ctx.set("rule", json!("E3 x E2: all ordered sequences of 2-3 statements of a 15-statement alphabet and all 4-statement sequences of the first ten (thorough: all 4-statement sequences of the alphabet and all 5-statement sequences of the first eight) from an alphabet of == / != goals (incl. subsuming and multi-binding disequalities), sequences containing a two-arm conde, and FD programs, run with an instrumented User type; an fngoal probe before and after every statement and every answer state check: with_constraint - take_constraint == number of stored constraints; for every successful `==` process_extension was called once with exactly the bindings unify_rec adds from the same state; the statements recorded in an answer's (per-branch) user state form one path of the program. Each program under every schedule of the store iteration sites with <= d deviations. distinct_nontrivial = programs whose answers carry stored constraints."));
     ctx.set("deviation_bound", json!(d));
     let progs = programs(if quick { 1 } else { 2 });
     let sel: Vec<usize> = match &ctx.replay {
